@@ -35,13 +35,20 @@ def _cls():
     return SimilarityContainer
 
 
+def typed(op):
+    """the value of a set op in the numeric type named by its optional 5th element (default: float)"""
+    import numpy as np
+    kind = op[4] if len(op) > 4 else 'float'
+    return {'float': float, 'int': int, 'np.int64': np.int64, 'np.float32': np.float32, 'np.float64': np.float64, 'bool': bool}[kind](op[3])
+
+
 def run_impl(ops):
     c = _cls()()
     out = []
     for op in ops:
         try:
             if op[0] == 'set':
-                c.set_similarity(op[1], op[2], op[3])
+                c.set_similarity(op[1], op[2], typed(op))
                 out.append('ok')
             elif op[0] == 'get':
                 out.append(fkey(c.get_similarity(op[1], op[2])))
@@ -76,7 +83,7 @@ def nontrivial_hist(ops):
 
 
 def evaluate_hist(ctx, hists, stream):
-    reqs = [{'op': 'sim.hist', 'ops': [[o[0], *o[1:3], fkey(o[3])] if o[0] == 'set' else list(o) for o in ops]} for ops in hists]
+    reqs = [{'op': 'sim.hist', 'ops': [[o[0], *o[1:3], fkey(typed(o))] if o[0] == 'set' else list(o) for o in ops]} for ops in hists]
     reps = run_driver(reqs)
     for ops, rep in zip(hists, reps):
         impl, _ = run_impl(ops)
@@ -213,7 +220,11 @@ def run(ctx):
         ops = []
         for _ in range(rng.randrange(0, 31)):
             r = rng.random()
-            if r < 0.55:
+            if r < 0.12:      # values that are numbers but not python floats: negative ones are negative all the same
+                v, kind = rng.choice([(-1, 'int'), (2, 'int'), (0, 'int'), (-3, 'np.int64'), (5, 'np.int64'), (-0.5, 'np.float32'), (0.5, 'np.float32'),
+                                      (-2.5, 'np.float64'), (1, 'bool'), (0, 'bool')])
+                ops.append(('set', rng.choice(K), rng.choice(K), v, kind))
+            elif r < 0.55:
                 ops.append(('set', rng.choice(K), rng.choice(K), rng.choice(V)))
             elif r < 0.85:
                 ops.append(('get', rng.choice(K + ['ZZ:9']), rng.choice(K)))
